@@ -2,6 +2,7 @@ import MalVerif.Model.JsonUtil
 import MalVerif.Model.AGraph
 import MalVerif.Model.AGS
 import MalVerif.Model.Query
+import MalVerif.Model.Gen
 open Lean MalVerif
 
 namespace Drv
@@ -120,11 +121,130 @@ def opAgHist (j : Json) : R Json := do
     outs := outs.push (jO [("err", err), ("out", out), ("obs", obsSt s)])
   pure (Json.arr outs)
 
+
+/-! ### languages, instance models, generation (C01, C02, C03, C15, C16) -/
+
+partial def parseExpr (j : Json) : R Expr := do
+  let t ← jfield jstr j "type"
+  match t with
+  | "attackStep" => pure (.step (← jfield jstr j "name"))
+  | "field" => pure (.field (← jfield jstr j "name"))
+  | "variable" => pure (.var (← jfield jstr j "name"))
+  | "collect" => pure (.collect (← parseExpr (← jget j "lhs")) (← parseExpr (← jget j "rhs")))
+  | "union" => pure (.union (← parseExpr (← jget j "lhs")) (← parseExpr (← jget j "rhs")))
+  | "intersection" => pure (.inter (← parseExpr (← jget j "lhs")) (← parseExpr (← jget j "rhs")))
+  | "difference" => pure (.diff (← parseExpr (← jget j "lhs")) (← parseExpr (← jget j "rhs")))
+  | "transitive" => pure (.trans (← parseExpr (← jget j "stepExpression")))
+  | "subType" => pure (.sub (← jfield jstr j "subType") (← parseExpr (← jget j "stepExpression")))
+  | _ => throw s!"bad expr type {t}"
+
+def exprToJson : Expr → Json
+  | .step n => jO [("type", jS "attackStep"), ("name", jS n)]
+  | .field n => jO [("type", jS "field"), ("name", jS n)]
+  | .var n => jO [("type", jS "variable"), ("name", jS n)]
+  | .collect l r => jO [("type", jS "collect"), ("lhs", exprToJson l), ("rhs", exprToJson r)]
+  | .union l r => jO [("type", jS "union"), ("lhs", exprToJson l), ("rhs", exprToJson r)]
+  | .inter l r => jO [("type", jS "intersection"), ("lhs", exprToJson l), ("rhs", exprToJson r)]
+  | .diff l r => jO [("type", jS "difference"), ("lhs", exprToJson l), ("rhs", exprToJson r)]
+  | .trans e => jO [("type", jS "transitive"), ("stepExpression", exprToJson e)]
+  | .sub t e => jO [("type", jS "subType"), ("subType", jS t), ("stepExpression", exprToJson e)]
+
+def parseReaches (j : Json) : R Reaches := do
+  pure { overrides := ← jfield jbool j "overrides", exprs := ← jfield (jlist parseExpr) j "exprs" }
+
+def parseStep (j : Json) : R StepDecl := do
+  pure { name := ← jfield jstr j "name", type := ← jfield jstr j "type", tags := ← jfield (jlist jstr) j "tags",
+         ttc := ← jfield jstr j "ttc", ttcName := ← jfieldOpt jstr j "ttcName", metaTxt := ← jfield jstr j "meta",
+         mitre := ← jfieldOpt jstr j "mitre", risk := ← jfield jstr j "risk",
+         requires := ← jfieldOpt (jlist parseExpr) j "requires", reaches := ← jfieldOpt parseReaches j "reaches" }
+
+def parseVar (j : Json) : R (String × Expr) := do
+  match (← jarr j) with
+  | [n, e] => pure ((← jstr n), (← parseExpr e))
+  | _ => throw "bad variable"
+
+def parseAsset (j : Json) : R AssetDecl := do
+  pure { name := ← jfield jstr j "name", superAsset := ← jfieldOpt jstr j "superAsset",
+         isAbstract := ← jfield jbool j "isAbstract", variables := ← jfield (jlist parseVar) j "variables",
+         steps := ← jfield (jlist parseStep) j "steps", metaTxt := ← jfield jstr j "meta",
+         category := ← jfield jstr j "category" }
+
+def parseAssoc (j : Json) : R AssocDecl := do
+  pure { name := ← jfield jstr j "name", leftAsset := ← jfield jstr j "leftAsset", leftField := ← jfield jstr j "leftField",
+         leftMin := ← jfield jnat j "leftMin", leftMax := ← jfieldOpt jnat j "leftMax",
+         rightAsset := ← jfield jstr j "rightAsset", rightField := ← jfield jstr j "rightField",
+         rightMin := ← jfield jnat j "rightMin", rightMax := ← jfieldOpt jnat j "rightMax", metaTxt := ← jfield jstr j "meta" }
+
+def parseLang (j : Json) : R Lang := do
+  pure { assets := ← jfield (jlist parseAsset) j "assets", assocs := ← jfield (jlist parseAssoc) j "assocs" }
+
+def parseIAsset (j : Json) : R IAsset := do
+  let defs ← jfield (jlist (fun e => do
+    match (← jarr e) with
+    | [k, v] => pure ((← jstr k), (← jstr v))
+    | _ => throw "bad defense")) j "defenses"
+  pure { id := ← jfield jint j "id", name := ← jfield jstr j "name", type := ← jfield jstr j "type", defenses := defs }
+
+def parseILink (j : Json) : R ILink := do
+  pure { cls := ← jfield jstr j "cls", lf := ← jfield jstr j "lf", rf := ← jfield jstr j "rf",
+         left := ← jfield (jlist jint) j "left", right := ← jfield (jlist jint) j "right" }
+
+def parseInst (j : Json) : R Inst := do
+  pure { assets := ← jfield (jlist parseIAsset) j "assets", links := ← jfield (jlist parseILink) j "links" }
+
+def evalErrName : EvalErr → String
+  | .recursion => "Recursion" | .noVariable => "LanguageGraphException" | .mixedVariable => "MixedVariable"
+  | .lookup => "LookupError" | .noTarget => "AttackGraphStepExpressionError"
+
+def jOptS (o : Option String) : Json := match o with | some s => jS s | none => Json.null
+def jOptB (o : Option Bool) : Json := match o with | some s => jB s | none => Json.null
+
+def stepToJson (d : StepDecl) : Json :=
+  jO [("name", jS d.name), ("type", jS d.type), ("tags", jsonOfList jS d.tags), ("ttc", jS d.ttc),
+      ("meta", jS d.metaTxt), ("risk", jS d.risk),
+      ("requires", match d.requires with | some l => jsonOfList exprToJson l | none => Json.null),
+      ("reaches", match d.reaches with
+        | some r => jO [("overrides", jB r.overrides), ("exprs", jsonOfList exprToJson r.exprs)]
+        | none => Json.null)]
+
+/-- C03: the steps every asset type exposes -/
+def opResolve (j : Json) : R Json := do
+  let L ← parseLang (← jget j "lang")
+  let types ← jfield (jlist jstr) j "types"
+  pure <| jsonOfList (fun t => jsonOfList (fun (e : String × StepDecl) =>
+      Json.arr #[jS e.1, stepToJson e.2]) (L.foldSteps t)) types
+
+/-- C01 / C02 / C16: generate the attack graph -/
+def opGen (j : Json) : R Json := do
+  let L ← parseLang (← jget j "lang")
+  let m ← parseInst (← jget j "inst")
+  match genGraph L m with
+  | .error e => pure (jO [("error", jS (evalErrName e))])
+  | .ok (ns, es) =>
+    pure <| jO [("nodes", jsonOfList (fun (n : GNode) => jO [("id", jN n.id), ("full_name", jS n.fullName),
+                  ("asset", jS n.assetName), ("name", jS n.step), ("type", jS n.type), ("ttc", jS n.ttc),
+                  ("tags", jsonOfList jS n.tags), ("mitre", jOptS n.mitre), ("defense", jOptS n.defense),
+                  ("exist", jOptB n.exist)]) ns),
+                ("edges", jsonOfList (fun (e : Nat × Nat) => Json.arr #[jN e.1, jN e.2]) es)]
+
+/-- C01 localisation: evaluate one expression from a set of source assets -/
+def opEval (j : Json) : R Json := do
+  let L ← parseLang (← jget j "lang")
+  let m ← parseInst (← jget j "inst")
+  let e ← parseExpr (← jget j "expr")
+  let xs ← jfield (jlist jint) j "sources"
+  match eval L m e xs with
+  | .error er => pure (jO [("error", jS (evalErrName er))])
+  | .ok r => pure (jO [("targets", jsonOfList jI r.1), ("step", jOptS r.2)])
+
 def dispatch (j : Json) : R Json := do
   let op ← jfield jstr j "op"
   match op with
   | "apriori" => opApriori j
   | "ag_hist" => opAgHist j
+  | "resolve" => opResolve j
+  | "gen" => opGen j
+  | "eval" => opEval j
   | _ => throw "bad-op"
 
 def handle (line : String) : String :=
